@@ -283,7 +283,8 @@ def writer(report, db, S, M):
                 args = args[1:]
             bound = dict(zip(names, args))
             bound.update(dict(e.kwargs))
-            has_thr = 'compression_threshold' in bound
+            has_thr = 'compression_threshold' in bound and \
+                bound['compression_threshold'] != ('const', None)
             enabled = [pol for a, pol, _ in p.conds_at(e)
                        if a[1] == 'truth' and struct(a[2][0]) == enabled_at]
             if enabled != [has_thr]:
@@ -600,10 +601,32 @@ def mode(report, db, cg, M):
     n = 0
     allowed_readers = {M.conn_method('_write_packet'),
                        M.method(M.reactor, 'read_packet')}
+    tracked = {'compression_enabled', 'compression_threshold'}
+    # a view the options object computes from the mode each time it is asked
+    # (a property / method that reads the mode and stores nothing) is read
+    # under the same rule as the mode itself
+    views = set()
     for fi in db.funcs:
+        if fi.cls is not None and fi.cls.name == '_ConnectionOptions' and \
+                fi.name != '__init__' and not isinstance(
+                    fi.node, ast.Lambda) and fi.params:
+            xs = list(cg.shallow(fi))
+            reads = [x for x in xs if isinstance(x, ast.Attribute) and
+                     x.attr in tracked and isinstance(x.ctx, ast.Load) and
+                     isinstance(x.value, ast.Name) and
+                     x.value.id == fi.params[0]]
+            stores = [x for x in xs if isinstance(x, (ast.Attribute,
+                                                      ast.Subscript))
+                      and isinstance(x.ctx, (ast.Store, ast.Del))]
+            if reads and not stores and not any(
+                    isinstance(x, (ast.Global, ast.Nonlocal)) for x in xs):
+                views.add(fi)
+    tracked |= set(f.name for f in views)
+    for fi in db.funcs:
+        if fi in views:
+            continue
         for x in cg.shallow(fi):
-            if isinstance(x, ast.Attribute) and x.attr in (
-                    'compression_enabled', 'compression_threshold'):
+            if isinstance(x, ast.Attribute) and x.attr in tracked:
                 n += 1
                 if isinstance(x.ctx, ast.Store):
                     continue
